@@ -401,6 +401,16 @@ func quirkKeys(name string, good *ecdsa.PrivateKey, bl int) []quirk {
 	add("a1-bits-padding-8", outer(v0, algStd, inner(tlv(0xa1, tlv(3, append([]byte{8}, pub[1:]...))))))
 	add("a1-bits-empty", outer(v0, algStd, inner(tlv(0xa1, tlv(3)))))
 	add("a1-twice", outer(v0, algStd, inner(a1, a1)))
+	// elements in the high-tag-number form where an optional member may stand
+	add("high-tag-element", outer(v0, algStd, inner([]byte{0xbf, 0x21, 0x02, 0x05, 0x00})))
+	add("high-tag-then-a1", outer(v0, algStd, inner([]byte{0x5f, 0x81, 0x00, 0x00}, a1)))
+	add("high-tag-below-31", outer(v0, algStd, inner([]byte{0x1f, 0x05, 0x00})))
+	add("high-tag-leading-80", outer(v0, algStd, inner([]byte{0x9f, 0x80, 0x21, 0x00})))
+	add("high-tag-six-octets", outer(v0, algStd, inner([]byte{0x1f, 0x81, 0x81, 0x81, 0x81, 0x81, 0x01, 0x00})))
+	add("high-tag-five-octets-large", outer(v0, algStd, inner([]byte{0x1f, 0x8f, 0xff, 0xff, 0xff, 0x7f, 0x00})))
+	add("high-tag-five-octets", outer(v0, algStd, inner([]byte{0x1f, 0x87, 0xff, 0xff, 0xff, 0x7f, 0x00, 0x00})))
+	add("high-tag-truncated", outer(v0, algStd, inner([]byte{0xbf})))
+	add("high-tag-no-length", outer(v0, algStd, inner([]byte{0xbf, 0x21})))
 	// the embedded public key is not consulted: a point that lies on the curve but belongs to another scalar changes nothing
 	{
 		other := ecKey(name, new(big.Int).Add(good.D, big.NewInt(1)))
